@@ -46,6 +46,8 @@ pub enum Step {
     Resize { n: u8 },
     /// prepare_cached / prepare_typed_cached on a held client; key = (query index, types index)
     Prepare { h: u8, q: u8, t: u8, txn: bool },
+    /// n prepare_cached calls for the same key in flight at once on one client
+    PrepareJoin { h: u8, q: u8, t: u8, n: u8 },
     CacheClear { h: u8 },
     CacheRemove { h: u8, q: u8, t: u8 },
     RegistryClear,
@@ -345,8 +347,8 @@ struct HeldC {
 
 #[derive(Default, Clone)]
 struct ClientModel {
-    /// key -> column name of the statement that was prepared for it
-    cache: BTreeMap<(u8, u8), String>,
+    /// key -> column names the cached statement may have (one unless concurrent misses raced)
+    cache: BTreeMap<(u8, u8), Vec<String>>,
     /// log length of the connection when the client was returned
     returned_at: Option<usize>,
     handouts: u32,
@@ -626,9 +628,10 @@ async fn run_case(case: &Case, srv: Srv, out: &mut Out) {
                                 if m.handouts >= 2 {
                                     out.labels.push("prepare:hit-on-recycled-client".into());
                                 }
-                                if &col != prev {
-                                    fail!("cache-hit-wrong-statement", "key {:?} on connection {} was cached as {} but {} was returned", key, conn, prev, col);
+                                if !prev.contains(&col) {
+                                    fail!("cache-hit-wrong-statement", "key {:?} on connection {} was cached as {:?} but {} was returned", key, conn, prev, col);
                                 }
+                                m.cache.insert(key, vec![col.clone()]);
                                 let extra: Vec<&Front> = new.iter().filter(|f| !(txn && matches!(f, Front::Query(_)))).collect();
                                 if !extra.is_empty() {
                                     fail!("cache-hit-caused-round-trip", "a cache hit for {:?} on connection {} sent {:?}", key, conn, extra);
@@ -648,7 +651,7 @@ async fn run_case(case: &Case, srv: Srv, out: &mut Out) {
                                         fail!("parse-mismatch", "key ({:?}, {:?}) was prepared as ({:?}, {:?})", query, want_oids, pq, oids);
                                     }
                                 }
-                                m.cache.insert(key, col);
+                                m.cache.insert(key, vec![col]);
                             }
                         }
                         let size = held[i].obj.statement_cache.size();
@@ -656,6 +659,70 @@ async fn run_case(case: &Case, srv: Srv, out: &mut Out) {
                             fail!("cache-size", "statement_cache.size() is {} but {} keys are cached on connection {}", size, m.cache.len(), conn);
                         }
                     }
+                }
+            }
+            Step::PrepareJoin { h, q, t, n } => {
+                let Some(i) = pick(h, held.len()) else { continue };
+                let conn = held[i].conn;
+                let key = (q % 3, t % 3);
+                let query = QUERIES[key.0 as usize];
+                let types = types_of(key.1);
+                if lock(&srv).conns[conn].dead || lock(&srv).conns[conn].kill_on_parse || models.get(&conn).map(|m| m.killed).unwrap_or(false) {
+                    continue;
+                }
+                settle().await;
+                let before = lock(&srv).conns[conn].log.len();
+                let obj = &held[i].obj;
+                let results = match n % 2 {
+                    0 => {
+                        let (a, b) = tokio::join!(obj.prepare_typed_cached(query, &types), obj.prepare_typed_cached(query, &types));
+                        vec![a, b]
+                    }
+                    _ => {
+                        let (a, b, c) = tokio::join!(
+                            obj.prepare_typed_cached(query, &types),
+                            obj.prepare_typed_cached(query, &types),
+                            obj.prepare_typed_cached(query, &types)
+                        );
+                        vec![a, b, c]
+                    }
+                };
+                settle().await;
+                out.labels.push("prepare:concurrent-same-key".into());
+                let m = models.entry(conn).or_default();
+                let parses = lock(&srv).conns[conn].log[before..].iter().filter(|f| matches!(f, Front::Parse { .. })).count();
+                let mut cols = vec![];
+                for r in results {
+                    match r {
+                        Err(e) => fail!("prepare-failed", "concurrent prepare on live connection {} failed: {}", conn, e),
+                        Ok(stmt) => {
+                            let col = stmt.columns().first().map(|c| c.name().to_string()).unwrap_or_default();
+                            if !col.starts_with(&format!("c{}_", conn)) {
+                                fail!("statement-from-other-connection", "prepare on connection {} returned a statement with column {:?}", conn, col);
+                            }
+                            cols.push(col);
+                        }
+                    }
+                }
+                match m.cache.get(&key) {
+                    Some(prev) => {
+                        if parses != 0 || cols.iter().any(|c| !prev.contains(c)) {
+                            fail!("cache-hit-wrong-statement", "concurrent hits for {:?} on connection {}: cached {:?}, returned {:?}, {} Parse messages", key, conn, prev, cols, parses);
+                        }
+                    }
+                    None => {
+                        if parses == 0 || parses > cols.len() {
+                            fail!("cache-miss-parses", "concurrent misses for {:?} caused {} Parse messages for {} calls", key, parses, cols.len());
+                        }
+                        out.nontrivial = true;
+                        cols.sort();
+                        cols.dedup();
+                        m.cache.insert(key, cols);
+                    }
+                }
+                let size = held[i].obj.statement_cache.size();
+                if size != m.cache.len() {
+                    fail!("cache-size", "statement_cache.size() is {} but {} keys are cached on connection {} (after concurrent prepares of one key)", size, m.cache.len(), conn);
                 }
             }
             Step::CacheClear { h } => {
@@ -770,6 +837,7 @@ fn step() -> BoxedStrategy<Step> {
         1 => any::<u8>().prop_map(|h| Step::Take { h }),
         1 => (0u8..4).prop_map(|n| Step::Resize { n }),
         10 => (any::<u8>(), 0u8..3, 0u8..3, prop::bool::weighted(0.2)).prop_map(|(h, q, t, txn)| Step::Prepare { h, q, t, txn }),
+        2 => (any::<u8>(), 0u8..3, 0u8..3, any::<u8>()).prop_map(|(h, q, t, n)| Step::PrepareJoin { h, q, t, n }),
         1 => any::<u8>().prop_map(|h| Step::CacheClear { h }),
         1 => (any::<u8>(), 0u8..3, 0u8..3).prop_map(|(h, q, t)| Step::CacheRemove { h, q, t }),
         2 => Just(Step::RegistryClear),
